@@ -216,6 +216,12 @@ def m_m1(ctx, case):
         ctx.sample({"fn": fn, "args": case["args"][0], "c": repr(call(fc, *case["args"][0])), "py": repr(call(fp, *case["args"][0]))})
 
 
+PKG_HELPERS = {"hex2bin": ["8D40"], "bin2int": ["1011"], "hex2int": ["FF"], "bin2hex": ["10001101"], "df": None, "crc": None, "floor": [3.7],
+               "icao": None, "is_icao_assigned": ["4840D6"], "typecode": None, "cprNL": [10.2], "idcode": None, "squawk": ["0101010101010"],
+               "altcode": None, "altitude": ["0000001010000"], "gray2alt": ["00000000010"], "data": None, "allzeros": None,
+               "wrongstatus": ["1" + "0" * 55, 1, 2, 5]}
+
+
 def call_table():
     """name -> callable over the whole library (resolved identically in both configurations)"""
     from . import C14
@@ -225,6 +231,10 @@ def call_table():
     t["pms.df"] = lambda m: pms.df(m)
     t["pms.icao"] = lambda m: pms.icao(m)
     t["pms.crc"] = lambda m: pms.crc(m)
+    # the shared helpers as users reach them: through the PACKAGE namespace (`pms.squawk(...)`, README style) - that a name is
+    # exported at all must not depend on which common module was picked (an `__all__` in one twin only)
+    for nm in PKG_HELPERS:
+        t["pkg." + nm] = (lambda *a, _n=nm: getattr(pms, _n)(*a))
     from pyModeS.decoder.bds import bds53
     for nm in ("is53", "hdg53", "ias53", "mach53", "tas53", "vr53"):
         t["bds53." + nm] = getattr(bds53, nm)
@@ -291,7 +301,7 @@ def m_m2(ctx, case):
     for (name, args), rc, rp in zip(calls, mine, theirs):
         if rc != rp:
             base = name.split(".")[-1]
-            if name in ("common.typecode", "adsb.typecode", "common.altcode") and eq(base, tuple(rc), tuple(rp)):
+            if name in ("common.typecode", "adsb.typecode", "common.altcode", "pkg.typecode", "pkg.altcode") and eq(base, tuple(rc), tuple(rp)):
                 continue  # the shared functions themselves: sentinel map of the statement applies
             ctx.violation(classify_m2(name, args, rc, rp), fn=name, args=args, c_config=rc, py_config=rp)
     ctx.hit("m2_calls", len(calls))
@@ -509,6 +519,10 @@ def cases(ctx):
             for extra in ("tell", "pms.df", "pms.icao", "pms.crc", "bds53.is53", "bds53.vr53", "bds53.hdg53"):
                 if len(hx) == 28:
                     calls.append([extra, [hx]])
+        long_ = [f_ for f_ in fset if len(f_) == 28]
+        for nm, a in PKG_HELPERS.items():
+            if a is not None or long_:
+                calls.append(["pkg." + nm, a if a is not None else [long_[0]]])
         yield "m2", {"calls": calls}
     for k in range(ctx.share(64 if quick else 1500)):
         yield "hist", {"hseed": ctx.seed * 7919 + 1000 * ctx.shard + k}
